@@ -21,10 +21,12 @@ for d in $demos; do mv /tmp/mutdemo.$$/$(echo $d | tr / _) $d; done; rmdir /tmp/
 pk=""; for d in $demos; do pk="$pk ./$(dirname $d)"; done
 with=$(go test -count=1 -run 'Mutant|Demo' $pk 2>&1 | tail -3)
 echo "$with" | grep -q 'FAIL' && with_res=FAIL || with_res=PASS
-git stash push -q -- $changed
+# no git stash here: stashes are shared between worktrees
+git diff -- $changed > /tmp/mutverify.$$.diff
+git apply -R /tmp/mutverify.$$.diff
 without=$(go test -count=1 -run 'Mutant|Demo' $pk 2>&1 | tail -3)
 echo "$without" | grep -q 'FAIL' && without_res=FAIL || without_res=PASS
-git stash pop -q
+git apply /tmp/mutverify.$$.diff; rm -f /tmp/mutverify.$$.diff
 echo "demo with change: $with_res ; without: $without_res"
 git diff -- $changed > $out/patch.diff
 for d in $demos; do cp $d $out/; done
